@@ -47,4 +47,13 @@ def periodToP (tz : PyDateTime → Option Str) (a b : Atom) : Py Str :=
   vPeriod_to_ical (by_duration := if isDurAtom b then 1 else 0) (start := atomObj a) (end_ := atomObj b)
     (duration := TD.ofSeconds (durSeconds b)) (period_to_ical := fun _ _ => .error .valueError) (time_to_ical := timeToP) (tzid_of := tz)
 
+/-! ### wave 8: `vDDDLists.from_ical` / `to_ical` -/
+
+/-- `vDDDLists.from_ical(t)` (timezone=None): every part of `t.split(',')` through the dispatcher -/
+def dddListsFromP (lu : PyDateTime → PyDateTime) (t : Str) : Py (List PyDDD) :=
+  vDDDLists_from_ical (ical := t) (m_of := durGroups) (period_from_ical := fun s _ => periodFromP lu s) (localize_utc := lu)
+/-- `vDDDLists.to_ical()` on elements whose own `to_ical()` is `elem`; `from_unicode` of bytes is the identity -/
+def dddListsToP {DO : Type} (elem : DO → Py Str) (dts : List DO) : Py Str :=
+  vDDDLists_to_ical (dts := dts) (elem_to_ical := elem) (from_unicode := fun b => b)
+
 end ICal.Bodies
